@@ -12,6 +12,7 @@
 mod util;
 
 mod buf2;
+mod pnm;
 
 use std::io::{BufRead, BufWriter, Write};
 
@@ -52,6 +53,7 @@ type ExecFn = fn(&serde_json::Value) -> serde_json::Value;
 fn subsystem(name: &str) -> Option<(GenFn, ExecFn)> {
     Some(match name {
         "buf2" => (buf2::gen, buf2::exec),
+        "pnm" => (pnm::gen, pnm::exec),
         _ => return None,
     })
 }
